@@ -10,6 +10,7 @@ def nameIdx (tok : String) : Nat := ((tok.drop 1).toString.toNat?).getD 0
 def parseFlavour : String → Option Flavour
   | "V" => some .V | "I" => some .I | "A" => some .A
   | "TV" => some .TV | "TI" => some .TI | "TA" => some .TA
+  | "AV" => some .AV | "TAV" => some .TAV
   | _ => none
 
 def parseSpec (s : String) : FSpec :=
